@@ -197,6 +197,9 @@ func (g *c13gen) extras(others, libs []string) srcFile {
 	// (everything Registry.Add rewrites in the tree it is given)
 	g.feat("header-params")
 	docs := []string{"", "", "/** */\n", "/**\n * Header params follow.\n */\n"}
+	if g.r.Chance(40) { // every template with header params has a soydoc in front (Spec/Determinism.v headers_documented)
+		docs = docs[2:]
+	}
 	sb.WriteString(g.r.Pick(docs) + "{template .hpLeaf" + g.r.Pick([]string{"", ` private="true"`}) + "}\n{@param? a: int}\n{@param? opt: int|null}\n{@param? s: string}\n{$a ?: 1}{$opt ?: 2}{$s ?: 'none'}\n{/template}\n\n")
 	sb.WriteString(g.r.Pick(docs) + "{template .hpAll}\n{@param? a: int}\n{@param? opt: int|null}\n{call .hpLeaf data=\"all\" /}\n{/template}\n\n")
 	sb.WriteString(g.r.Pick(docs) + "{template .hpMixed}\n{@param a: int}\n{@param? opt: int|null}\n{@param l: list<int>}\n{$a}{if $opt}{$opt}{/if}{foreach $x in $l}{$x}{/foreach}" +
